@@ -127,6 +127,42 @@ static Scen exec1(int n, bool hold) {        // task_arena(1,1) (two slots inter
         [n, hold](int id) { for (int k = 0; k < 2; k++) { int u = 1 + id * 2 + k; TR.emit("{\"e\":\"Enq\",\"u\":%d}", u); inv(id, 1 + id, 1);
             AR->execute([&] { TR.emit("{\"e\":\"Begin\",\"u\":%d}", u); if (hold && k == 0) hold_until_blocked((cosched::self_id() + 1) % n, 60000); else cosched::yield_point(); prod(1 + id, 1); }); res(id, 1 + id, 1); } }, [] { delete AR; }};
 }
+// the delegated functor of a caller that found no slot is executed by a thread that STAYS inside the arena (it waits there for something else): only the
+// notification in delegated_task::finalize can wake the caller - no thread leaves the arena, so no exit notification ever comes (ExecSlot.tla, Stayers)
+static tbb::detail::d1::wait_context* SWC[2]; static tbb::task_group_context* SCTX[2];
+static Scen execstay(int callers) {
+    return {2 + callers, [] { AR = new tbb::task_arena(2, 2); AR->initialize(); vh::rawstore(g_flag[0], 0); vh::rawstore(g_flag[1], 0);
+            for (int i = 0; i < 2; i++) { SWC[i] = new tbb::detail::d1::wait_context(1); SCTX[i] = new tbb::task_group_context(tbb::task_group_context::isolated); } },
+        [callers](int id) {
+            if (id < 2) { AR->execute([&] { g_flag[0].fetch_add(1); tbb::detail::d1::wait(*SWC[id], *SCTX[id]); }); return; }
+            while (g_flag[0].load() < 2) cosched::yield_point();
+            int u = id; TR.emit("{\"e\":\"Enq\",\"u\":%d}", u); inv(id, 1 + id, 1);
+            AR->execute([&] { TR.emit("{\"e\":\"Begin\",\"u\":%d}", u); cosched::yield_point(); prod(1 + id, 1); }); res(id, 1 + id, 1);
+            if (g_flag[1].fetch_add(1) + 1 == callers) { SWC[0]->release(); SWC[1]->release(); }
+        }, [] { delete AR; for (int i = 0; i < 2; i++) { delete SWC[i]; delete SCTX[i]; } }};
+}
+// the wake-up that a leaving thread sends with notify_one can reach a caller that no longer needs it (its functor was already run by a thread inside): that
+// caller must pass it on, or another caller sleeps beside a free slot (ExecSlot.tla, BATON).  Thread 0 dispatches inside (and runs the delegated functor of
+// thread 2), thread 1 merely holds the second slot; the controller (4) lets thread 0 leave once thread 2's functor has run and thread 3 is asleep.
+static Scen execbaton() {
+    return {5, [] { AR = new tbb::task_arena(2, 2); AR->initialize(); for (int i = 0; i < 4; i++) vh::rawstore(g_flag[i], 0);
+            SWC[0] = new tbb::detail::d1::wait_context(1); SCTX[0] = new tbb::task_group_context(tbb::task_group_context::isolated); },
+        [](int id) {
+            if (id == 0) { AR->execute([&] { g_flag[0].fetch_add(1); tbb::detail::d1::wait(*SWC[0], *SCTX[0]); }); return; }
+            if (id == 1) { AR->execute([&] { g_flag[0].fetch_add(1); while (!g_flag[2].load()) cosched::yield_point(); }); return; }
+            if (id == 4) { while (!g_flag[1].load()) cosched::yield_point(); hold_until_blocked(3, 60000); SWC[0]->release(); return; }
+            while (g_flag[0].load() < 2) cosched::yield_point();
+            if (id == 3) while (!g_flag[1].load()) cosched::yield_point();              // thread 3 arrives after thread 2's functor has run: nobody inside will run its own
+            int u = id; TR.emit("{\"e\":\"Enq\",\"u\":%d}", u); inv(id, 1 + id, 1);
+            AR->execute([&] { TR.emit("{\"e\":\"Begin\",\"u\":%d}", u); prod(1 + id, 1); if (id == 2) g_flag[1].store(1); }); res(id, 1 + id, 1);
+            if (id == 3) g_flag[2].store(1);
+        }, [] { delete AR; delete SWC[0]; delete SCTX[0]; }};
+}
+static Scen exec2(int n, bool hold) {        // task_arena(2,2): no worker can ever enter (no mandatory concurrency with two reserved slots), so a caller that found no slot gets in only
+    return {n, [] { AR = new tbb::task_arena(2, 2); AR->initialize(); },     // through the exit notification of a leaving thread (or the baton of another caller)
+        [n, hold](int id) { for (int k = 0; k < 2; k++) { int u = 1 + id * 2 + k; TR.emit("{\"e\":\"Enq\",\"u\":%d}", u); inv(id, 1 + id, 1);
+            AR->execute([&] { TR.emit("{\"e\":\"Begin\",\"u\":%d}", u); if (hold && k == 0) { for (int j = 1; j < n; j++) hold_until_blocked((cosched::self_id() + j) % n, 20000); } else cosched::yield_point(); prod(1 + id, 1); }); res(id, 1 + id, 1); } }, [] { delete AR; }};
+}
 static Scen suspF(int n, bool hold) {        // a task suspends itself inside an arena of n slots; a foreign thread resumes it; thread 0 waits for the group
     return {n + 1, [n] { AR = new tbb::task_arena(n, n); AR->initialize(); vh::rawstore(g_sp, (void*)nullptr); },
         [n, hold](int id) {
@@ -179,6 +215,9 @@ static Scen make(const std::string& s) {
     if (s == "enqL1") return enq(2, 1, 2, 1, false); if (s == "enq1L1") return enq(1, 1, 2, 1, false); if (s == "enqL2x2") return enq(3, 1, 2, 2, true); if (s == "enqx2") return enq(2, 1, 2, 0, true);
     if (s == "mon_all") return mon_all(2, 1); if (s == "mon_all22") return mon_all(2, 2); if (s == "mon_one") return mon_one(2); if (s == "mon_pred") return mon_pred(2);
     if (s == "mon_abort") return mon_abort(2); if (s == "bq") return bq(1, 2, 2, 2); if (s == "bq2") return bq(2, 3, 1, 2); if (s == "bq13") return bq(1, 1, 3, 3);
+    if (s == "exec2x3") return exec2(3, false); if (s == "exec2x4") return exec2(4, false); if (s == "exec2x3H") return exec2(3, true); if (s == "exec2x4H") return exec2(4, true);
+    if (s == "execbaton") return execbaton();
+    if (s == "execstay") return execstay(1); if (s == "execstay2") return execstay(2);
     if (s == "mtx2a") return mtx2(0); if (s == "mtx2b") return mtx2(1); if (s == "mtx2c") return mtx2(2); if (s == "mtx2d") return mtx2(3);
     if (s == "mtx") return mtx(3); if (s == "rwm") return rwm(0); if (s == "rwu") return rwm(1);
     if (s == "tgwait") return tgwait(2, 2, false); if (s == "tgwait3") return tgwait(3, 3, false); if (s == "tgwaitH") return tgwait(2, 2, true); if (s == "tgwait3H") return tgwait(3, 2, true);
@@ -216,9 +255,55 @@ static int probe() {
     printf("{\"busy_unique\":%d,\"fence_w\":%d,\"fence_notify_one\":%d,\"fence_notify_all\":%d,\"events\":%zu}\n", unique_busy, fence_w, fence_n1, fence_na, evs.size());
     return 0;
 }
+// probe_exec: a fact about task_arena::execute extracted from the running code by a DIRECTED schedule (DESIGN 2.6; ExecSlot.tla, constant BATON): does a caller
+// that leaves the slot-wait loop without having entered the arena pass the wake-up on?  The schedule builds the state of TLC's counterexample for BATON = FALSE:
+// thread 0 dispatches inside a 2-slot arena, thread 1 holds the other slot; thread 2 delegates its functor, thread 0 runs it BEFORE thread 2 has registered in
+// the exit monitor; thread 2 registers and is paused before it looks at its task; thread 0 is released and paused just before it gives its slot back; thread 3
+// delegates and falls asleep; thread 0 leaves (its notify_one reaches thread 2, registered first); thread 2 finishes.  Is thread 3 awake now?
+static int probe_exec() {
+    using vh::rawload; tbb::task_arena ar(2, 2); ar.initialize(); r1::arena* a = rawload(ar.my_arena);
+    tbb::detail::d1::wait_context swc(1); tbb::task_group_context sctx(tbb::task_group_context::isolated);
+    static std::atomic<int> inside, ran2, relh; static int done[4]; vh::rawstore(inside, 0); vh::rawstore(ran2, 0); vh::rawstore(relh, 0); memset(done, 0, sizeof done);
+    const char* mlo = (const char*)&a->my_exit_monitors; const char* mhi = mlo + sizeof(a->my_exit_monitors);
+    auto in_mon = [&](const void* p) { return (const char*)p >= mlo && (const char*)p < mhi; };
+    auto is_slot_flag = [&](const void* p) { for (unsigned i = 0; i < a->my_num_slots; i++) if (p == (const void*)&a->my_slots[i].my_is_occupied) return true; return false; };
+    Sched S; focus_only(false); S.stall_limit = 100000000;
+    S.spawn(4, [&](int id) {
+        if (id == 0) ar.execute([&] { inside.fetch_add(1); tbb::detail::d1::wait(swc, sctx); });
+        else if (id == 1) ar.execute([&] { inside.fetch_add(1); while (!relh.load()) cosched::yield_point(); });
+        else ar.execute([&] { if (id == 2) ran2.store(1); });
+        done[id] = 1; });
+    int verdict = -1; const char* why = ""; bool released = false;
+    auto run_until = [&](int t, std::function<bool()> stop, long lim) { for (long i = 0; i < lim; i++) { if (stop()) return true; if (!S.runnable(t)) return stop(); S.step(t); } return stop(); };
+    do {
+        if (!run_until(0, [&] { return rawload(inside) >= 1; }, 400000)) { why = "thread 0 did not enter"; break; }
+        if (!run_until(1, [&] { return rawload(inside) >= 2; }, 400000)) { why = "thread 1 did not enter"; break; }
+        run_until(0, [&] { return S.state(0) == ST_BLOCKED; }, 400000);                                        // the dispatcher falls asleep (no work)
+        if (!run_until(2, [&] { return rawload(a->my_fifo_task_stream.population) != 0; }, 400000)) { why = "thread 2 did not delegate"; break; }
+        if (!run_until(2, [&] { return in_mon(S.pending(2).addr); }, 400000)) { why = "thread 2 did not reach the exit monitor"; break; }
+        if (!run_until(0, [&] { return rawload(ran2) == 1; }, 400000)) { why = "thread 0 did not run the delegated functor"; break; }
+        run_until(0, [&] { return S.state(0) == ST_BLOCKED; }, 400000);                                        // finalize done, asleep again
+        if (!run_until(2, [&] { return a->my_exit_monitors.my_waitset.size() == 1 && !in_mon(S.pending(2).addr); }, 400000)) { why = "thread 2 did not register"; break; }
+        swc.release(); released = true;                                                                       // thread 0 may leave now
+        if (!run_until(0, [&] { return S.runnable(0) && S.pending(0).kind == K_STORE && is_slot_flag(S.pending(0).addr); }, 400000)) { why = "thread 0 did not reach the slot release"; break; }
+        run_until(3, [&] { return S.state(3) == ST_BLOCKED || done[3]; }, 400000);
+        if (done[3] || S.state(3) != ST_BLOCKED) { why = "thread 3 did not fall asleep"; break; }
+        if (!run_until(0, [&] { return done[0] != 0; }, 400000)) { why = "thread 0 did not leave"; break; }
+        if (S.state(3) != ST_BLOCKED) { why = "the leaving thread woke thread 3 directly"; break; }
+        if (!run_until(2, [&] { return done[2] != 0; }, 400000)) { why = "thread 2 did not return"; break; }
+        run_until(3, [&] { return done[3] != 0; }, 400000);
+        verdict = done[3] ? 1 : 0;
+    } while (false);
+    vh::rawstore(relh, 1); if (!released) swc.release();
+    if (!done[3] && S.state(3) == ST_BLOCKED) a->my_exit_monitors.notify_one();                                 // let the stranded caller go (clean-up only)
+    S.finish(3000000); S.join_all();
+    printf("{\"baton\":%d,\"why\":\"%s\"}\n", verdict, why);
+    return 0;
+}
 struct Stats { long paths, steps, stuck, sleeps, wakes, buffered, workers; };
 int main(int argc, char** argv) {
     if (argc >= 2 && !strcmp(argv[1], "probe")) return probe();
+    if (argc >= 2 && !strcmp(argv[1], "probe_exec")) return probe_exec();
     if (argc < 6) { fprintf(stderr, "usage\n"); return 2; }
     FILE* out = fopen(argv[1], "w"); std::string sc = argv[2]; int nseeds = atoi(argv[3]); unsigned long seed0 = strtoul(argv[4], nullptr, 10); bool tso = atoi(argv[5]) != 0;
     Stats* st = (Stats*)mmap(nullptr, sizeof(Stats), PROT_READ | PROT_WRITE, MAP_SHARED | MAP_ANONYMOUS, -1, 0); memset(st, 0, sizeof *st);
